@@ -382,6 +382,20 @@ fn scenario_read_only(tape: &Tape, out: &mut Out, trace: bool) -> R {
         drop(db);
         m.backend.image()
     };
+    // "a read-only database never writes, resizes or syncs" also when the file length does not
+    // match the stored layout (e.g. a copy tool that preallocates): refuse or serve, never repair
+    let mut image = image;
+    let resized = !unclean && tape.cfg[6] % 3 == 0;
+    if resized {
+        let page = m.cfg.page_size;
+        let extra = match tape.cfg[7] % 4 {
+            0 => page,
+            1 => page * (2 + (tape.cfg[8] as usize % 30)),
+            2 => 1 + tape.cfg[8] as usize,
+            _ => page * 64,
+        };
+        image.extend(std::iter::repeat_n(0u8, extra));
+    }
     let dir = format!("{}/scratch", crate::driver::verif_root());
     let _ = std::fs::create_dir_all(&dir);
     let path = format!("{dir}/ro-{}-{}.redb", std::process::id(), FILE_COUNTER.fetch_add(1, Ordering::Relaxed));
@@ -418,7 +432,7 @@ fn scenario_read_only(tape: &Tape, out: &mut Out, trace: bool) -> R {
                 Ok(())
             }
             Err(e) => {
-                sensure!(unclean, "ro-open-failed", "open_read_only of a cleanly closed file failed: {e:?}");
+                sensure!(unclean || resized, "ro-open-failed", "open_read_only of a cleanly closed file failed: {e:?}");
                 Ok(())
             }
         }
@@ -433,7 +447,13 @@ fn scenario_read_only(tape: &Tape, out: &mut Out, trace: bool) -> R {
         Ok(bytes) => sensure!(bytes == image, "ro-file-modified", "the file changed while open read-only ({} -> {} bytes, first difference at {:?})", image.len(), bytes.len(), image.iter().zip(bytes.iter()).position(|(a, b)| a != b)),
         Err(e) => sfail!("harness-io", "cannot re-read scratch file: {e}"),
     }
-    out.classes.push(if unclean { "read-only open of a recovery-required file (refused)" } else { "read-only scenario (file bytes compared)" });
+    out.classes.push(if unclean {
+        "read-only open of a recovery-required file (refused)"
+    } else if resized {
+        "read-only open of a clean file whose length was changed externally (refused or served; file bytes compared)"
+    } else {
+        "read-only scenario (file bytes compared)"
+    });
     Ok(())
 }
 
